@@ -17,14 +17,15 @@ from sim import world as Wd
 from sim.vkernel import K
 
 ID = 'C17'
+TIER = 'quick'
 LEVEL = 'fault_enumeration'
 EVAL_PROBE = 'faulted-runs'
 ENGINE = 'fault'
 BUDGET = {'quick': 120, 'thorough': 5000}
 WALL = {'quick': 50, 'thorough': 1800}
 RULE = ('scenarios: trash-put of 1-2 entries with home, .Trash/$uid and .Trash-$uid candidates, first use and collisions; from the fault-free '
-        'trace: one single-shot fault per op x applicable errno (all errnos for mutating ops, one sampled for reads), persistent conditions '
-        '(volume read-only / full / over quota, directory not writable, I/O errors below a directory, immutable entry) and 25 seeded pairs of '
+        'trace: one single-shot fault per op x applicable errno (all errnos for mutating ops; for reads one sampled errno in the quick tier, all in the thorough tier), persistent conditions '
+        '(volume read-only / full / over quota, directory not writable, I/O errors below a directory, immutable entry) and 25 (quick) / 120 (thorough) adaptive pairs of '
         'single shots; each faulted run: termination within the step cap, then the C01 frame oracle with two narrow relaxations, and exit '
         'status/diagnostic consistent with the final state; evaluations = faulted runs; distinct = (op kind, errno, outcome) triples')
 ASSUMPTIONS = ['faults are clean failures: the failing call has no effect', 'ENOENT/EEXIST are not injected on calls where a correct kernel could not return them']
@@ -139,12 +140,12 @@ def check(sim, case, st):
     base_ops = r0.nops
     maxops = max(2000, 50 * base_ops)
     rng = random.Random(case.get('fseed', 1))
-    shots = EF.single_shots(r0.trace, rng)
+    shots = EF.single_shots(r0.trace, rng, per_read=1 if TIER == 'quick' else 5)
     # conditions are expressed on resolved paths: resolve against a freshly built world
     sim.setup(case)
     conds = EF.conditions(r0.trace, mounts, lambda p: K.real_resolved_parent(p))
     plans = [([f], d) for f, d in shots] + [([f], d) for f, d in conds]
-    npairs = 25 if len(shots) >= 2 else 0
+    npairs = (25 if TIER == 'quick' else 120) if len(shots) >= 2 else 0
     if case.get('pinned'):
         plans = [(case['pinned']['faults'], tuple(case['pinned']['desc']))]
     res = []
